@@ -12,6 +12,8 @@ mod attrs;
 pub mod dns;
 pub mod endpoint_info;
 pub mod pkarr;
+#[cfg(iroh_verif)]
+pub mod verif;
 
 #[cfg(any(target_os = "android", doc))]
 pub use android::install_android_jni_context;
